@@ -16,7 +16,9 @@ func init() {
 			"entry.Mode == that constant no path leads from the tree walker's Next() back to it (the next entry) or to the successful end without passing the writer's header call (tar.Writer.WriteHeader / zip.Writer.CreateHeader); " +
 			"the only edge left out is the one taken because the entry is not among the requested paths. git archive writes an entry for directories and submodules in both formats. " +
 			"(prefix-entry) both writers write a header on the branch taken for a prefix that ends in '/'. (format-dispatch) every name SupportedFormats lists is a case of WriteArchive's switch. (filter-evaluated-per-entry) the path filter is evaluated on each entry's own path: a helper around MatchesPathFilter answers 'not requested' only after the matcher ran for that entry (a wildcard can stand for a directory component, so a rejected directory decides nothing about its contents). (go-mode-bits) no Unix file-type bits are converted to fs.FileMode. (walk-error-not-end-of-walk) no error branch in plumbing/object or the archive package replaces the error by io.EOF, at which the writers stop and report success. (every-path-listed) the writers give the tree walker no seen set, so a tree object that occurs at several paths is listed at each. " +
-			"Found and fixed: the zip writer skipped directories, submodules and the prefix directory. Not decided: header fields (modes, times), contents, ordering, path filters.",
+			"(zip-unix-attrs-only-for-exec-and-links) WriteZipArchive sets Unix attributes only in the cases for executables and symbolic links and does not call ApplyUmask (found and fixed, a9f0db8: tar's umask was applied, files unpacked as 0664/0775; git gives plain files none and executables 0755). " +
+			"(every-pathspec-must-match) both writers keep a per-filter record of what selected an entry and turn an unmatched filter into an error (found and fixed, 1af8ede: only 'nothing matched at all' was refused; git archive refuses any unmatched pathspec). " +
+			"Found and fixed earlier: the zip writer skipped directories, submodules and the prefix directory. The last two defects were found by comparing archives of generated trees with git archive's (discovery only; tar entries agreed throughout). Not decided: other header fields (times, sizes), contents, ordering, the pathspec language.",
 		Assumptions: []string{"archive/tar and archive/zip write what their headers say"},
 		Run:         runC50,
 	})
@@ -32,6 +34,7 @@ func runC50(c *Ctx) {
 		return
 	}
 	info := pk.TypesInfo
+	checkZipAttrsAndPathspecs(c, "zip-unix-attrs-only-for-exec-and-links", "every-pathspec-must-match")
 	fmPkg := p.Pkg("plumbing/filemode")
 	if fmPkg == nil {
 		c.Unresolved(r1, "package plumbing/filemode", 0, "not loaded")
@@ -103,10 +106,7 @@ func runC50(c *Ctx) {
 					return true
 				}
 			}
-			return nodeHasCall(cond, false, func(call *ast.CallExpr) bool {
-				fn := Callee(info, call)
-				return fn != nil && fn.Name() == "MatchesPathFilter"
-			}) != nil
+			return nodeHasCall(cond, false, func(call *ast.CallExpr) bool { return isPathMatcher(Callee(info, call)) }) != nil
 		}
 		for _, k := range kinds {
 			ko := fmPkg.Types.Scope().Lookup(k)
@@ -150,12 +150,9 @@ func runC50(c *Ctx) {
 	// have evaluated MatchesPathFilter for that entry: in the writers the skip condition contains the call, and a helper
 	// that wraps it returns false only after the call.
 	const r5 = "filter-evaluated-per-entry"
-	isMatch := func(call *ast.CallExpr) bool {
-		fn := Callee(info, call)
-		return fn != nil && fn.Name() == "MatchesPathFilter"
-	}
+	isMatch := func(call *ast.CallExpr) bool { return isPathMatcher(Callee(info, call)) }
 	for _, fi := range p.FuncsIn(ar) {
-		if fi.Decl.Body == nil || p.isTestFile(fi.Decl.Pos()) || fi.Decl.Name.Name == "MatchesPathFilter" || nodeHasCall(fi.Decl.Body, false, isMatch) == nil {
+		if fi.Decl.Body == nil || p.isTestFile(fi.Decl.Pos()) || nodeHasCall(fi.Decl.Body, false, isMatch) == nil {
 			continue
 		}
 		c.Analysed(fi)
@@ -381,5 +378,22 @@ func runC50(c *Ctx) {
 			return true
 		})
 	}
-	c.Floor(r4, 2)
+	c.Floor(r4, 1)
+}
+
+// isPathMatcher: a function of the archive package that answers whether a path (first parameter, a string) is selected
+// by the path filters (second parameter, a []string) — MatchesPathFilter and the variant that also records which filter
+// matched.
+func isPathMatcher(fn *types.Func) bool {
+	if fn == nil || fn.Pkg() == nil || shortPkg(fn.Pkg().Path()) != "internal/archive" {
+		return false
+	}
+	sig, _ := fn.Type().(*types.Signature)
+	if sig == nil || sig.Recv() != nil || sig.Params().Len() < 2 || sig.Results().Len() != 1 {
+		return false
+	}
+	if types.TypeString(sig.Params().At(0).Type(), nil) != "string" || types.TypeString(sig.Params().At(1).Type(), nil) != "[]string" {
+		return false
+	}
+	return types.TypeString(sig.Results().At(0).Type(), nil) == "bool"
 }
